@@ -143,6 +143,7 @@ def concrete_monitor(trace, native):
     deps = ['t%d' % j for j in trace['deps']]
     word = {(d, k): False for d in deps for k in ('Build', 'Service')}
     seen = {}
+    inval_pending = False
     acked = {'Build': False, 'Service': False}
     act = {(d, k): False for d in deps for k in ('Build', 'Service')}
     proc = False
@@ -199,6 +200,17 @@ def concrete_monitor(trace, native):
             if kindme == 'aggregate' and any(o[1] == 'Ok' and o[2] == k and o[3] == me for o in outs):
                 if any(not word[(d, k)] for d in deps):
                     viol.add('ok_without_cause')
+        if kindme == 'build':
+            # a successful result of a run that was invalidated in flight must not be acknowledged
+            inval_now = bool((msg and msg[0] == 'Invalidated' and msg[1] == 'Build') or a == 'inval')
+            res_ok = any(r == 'code=0' for r in nat['reap'])
+            emits_okb = any(o[1] == 'Ok' and o[2] == 'Build' and o[3] == me and o[4] for o in outs)
+            if res_ok and emits_okb and inval_pending and not inval_now:
+                viol.add('ok_without_cause')
+            if nat['spawn']:
+                inval_pending = False
+            elif inval_now:
+                inval_pending = True
         if kindme in ('build', 'service'):
             own = 'Build' if kindme == 'build' else 'Service'
             for o in outs:
